@@ -178,6 +178,11 @@ func (r *runner) upload(e tr.Ev) {
 			e["validgz"] = false
 		default:
 			u.data = stdGzip(d)
+			if mm, _ := e["mm"].(bool); mm && len(d) >= 3 {
+				// the same bytes as a gzip file of three members
+				a, b := len(d)/3, 2*len(d)/3
+				u.data = append(append(stdGzip(d[:a]), stdGzip(d[a:b])...), stdGzip(d[b:])...)
+			}
 		}
 	}
 	e["len"] = len(u.clear)
